@@ -68,7 +68,7 @@ fn c_xor() {
 
 // @ob name=c_read_write_words props=C08,C20 fn=serpent::read_words,serpent::write_words timeout=120
 #[kani::proof]
-#[kani::unwind(6)]
+#[kani::unwind(18)]
 fn c_read_write_words() {
     let b: [u8; 16] = kani::any();
     assert!(eq4(&read_words(&b), &r::words_of(&b)));
@@ -171,7 +171,7 @@ pub mod ufs {
 }
 
 macro_rules! block_fns {
-    ($enc:ident, $dec:ident, $rt:ident, $rtmono:ident, $unwind:expr, $cfgok:expr) => {
+    ($enc:ident, $dec:ident, $rt:ident, $rtde:ident, $rtmono:ident, $unwind:expr, $cfgok:expr) => {
         #[kani::proof]
         #[kani::stub(crate::bitslice::apply_s, st_s)]
         #[kani::stub(bcref::serpent::sbox, st_s)]
@@ -202,7 +202,7 @@ macro_rules! block_fns {
             replay_all();
             assert!(eq4(&r::words_of(&blk.0), &r::decrypt_words(&c.round_keys, r::words_of(&b))));
         }
-        // C01 for every value of the round keys, both orders, by composition of the inverse-pair lemmas
+        // C01 for every value of the round keys, by composition of the inverse-pair lemmas: decrypt after encrypt ...
         #[kani::proof]
         #[kani::stub(crate::bitslice::apply_s, ufs::s_fwd)]
         #[kani::stub(crate::bitslice::apply_s_inv, ufs::s_inv)]
@@ -214,13 +214,24 @@ macro_rules! block_fns {
             let c = any_serpent();
             let b: [u8; 16] = kani::any();
             let mut blk = Array(b);
-            if kani::any() {
-                cipher::BlockCipherEncrypt::encrypt_block(&c, &mut blk);
-                cipher::BlockCipherDecrypt::decrypt_block(&c, &mut blk);
-            } else {
-                cipher::BlockCipherDecrypt::decrypt_block(&c, &mut blk);
-                cipher::BlockCipherEncrypt::encrypt_block(&c, &mut blk);
-            }
+            cipher::BlockCipherEncrypt::encrypt_block(&c, &mut blk);
+            cipher::BlockCipherDecrypt::decrypt_block(&c, &mut blk);
+            assert!(blk.0 == b);
+        }
+        // ... and encrypt after decrypt
+        #[kani::proof]
+        #[kani::stub(crate::bitslice::apply_s, ufs::s_fwd)]
+        #[kani::stub(crate::bitslice::apply_s_inv, ufs::s_inv)]
+        #[kani::stub(crate::bitslice::linear_transform, ufs::l_fwd)]
+        #[kani::stub(crate::bitslice::linear_transform_inv, ufs::l_inv)]
+        #[kani::unwind($unwind)]
+        fn $rtde() {
+            assert!($cfgok);
+            let c = any_serpent();
+            let b: [u8; 16] = kani::any();
+            let mut blk = Array(b);
+            cipher::BlockCipherDecrypt::decrypt_block(&c, &mut blk);
+            cipher::BlockCipherEncrypt::encrypt_block(&c, &mut blk);
             assert!(blk.0 == b);
         }
         // the same on the real code with nothing stubbed
@@ -239,15 +250,17 @@ macro_rules! block_fns {
 }
 // @ob name=c_encrypt_block_un props=C08,C20 fn=serpent::Serpent::encrypt_block uses=c_apply_s_fwd,c_linear_transform_fwd timeout=600
 // @ob name=c_decrypt_block_un props=C08,C20 fn=serpent::Serpent::decrypt_block uses=c_apply_s_inv,c_linear_transform_inv timeout=600
-// @ob name=l_roundtrip_un props=C01 kind=lemma fn=serpent::Serpent::encrypt_block,serpent::Serpent::decrypt_block uses=l_apply_s_inverse,l_linear_transform_inverse,c_apply_s_fwd,c_apply_s_inv timeout=600
+// @ob name=l_roundtrip_ed_un props=C01 kind=lemma fn=serpent::Serpent::encrypt_block,serpent::Serpent::decrypt_block uses=l_apply_s_inverse,l_linear_transform_inverse,c_apply_s_fwd,c_apply_s_inv timeout=600
+// @ob name=l_roundtrip_de_un props=C01 kind=lemma fn=serpent::Serpent::encrypt_block,serpent::Serpent::decrypt_block uses=l_apply_s_inverse,l_linear_transform_inverse,c_apply_s_fwd,c_apply_s_inv timeout=600
 // @ob name=l_rtmono_un props=C01 kind=lemma tier=thorough fn=serpent::Serpent::encrypt_block,serpent::Serpent::decrypt_block timeout=3600
-block_fns!(c_encrypt_block_un, c_decrypt_block_un, l_roundtrip_un, l_rtmono_un, 34, cfg!(not(serpent_no_unroll)));
+block_fns!(c_encrypt_block_un, c_decrypt_block_un, l_roundtrip_ed_un, l_roundtrip_de_un, l_rtmono_un, 67, cfg!(not(serpent_no_unroll)));
 // the same three under --cfg serpent_no_unroll (the looped rounds)
 // @ob name=c_encrypt_block_nu props=C08,C03,C20 cfg=no_unroll fn=serpent::Serpent::encrypt_block uses=c_apply_s_fwd,c_linear_transform_fwd timeout=600
 // @ob name=c_decrypt_block_nu props=C08,C03,C20 cfg=no_unroll fn=serpent::Serpent::decrypt_block uses=c_apply_s_inv,c_linear_transform_inv timeout=600
-// @ob name=l_roundtrip_nu props=C01,C03 kind=lemma cfg=no_unroll fn=serpent::Serpent::encrypt_block,serpent::Serpent::decrypt_block uses=l_apply_s_inverse,l_linear_transform_inverse,c_apply_s_fwd,c_apply_s_inv timeout=600
+// @ob name=l_roundtrip_ed_nu props=C01,C03 kind=lemma cfg=no_unroll fn=serpent::Serpent::encrypt_block,serpent::Serpent::decrypt_block uses=l_apply_s_inverse,l_linear_transform_inverse,c_apply_s_fwd,c_apply_s_inv timeout=600
+// @ob name=l_roundtrip_de_nu props=C01,C03 kind=lemma cfg=no_unroll fn=serpent::Serpent::encrypt_block,serpent::Serpent::decrypt_block uses=l_apply_s_inverse,l_linear_transform_inverse,c_apply_s_fwd,c_apply_s_inv timeout=600
 // @ob name=l_rtmono_nu props=C01,C03 kind=lemma tier=thorough cfg=no_unroll fn=serpent::Serpent::encrypt_block,serpent::Serpent::decrypt_block timeout=3600
-block_fns!(c_encrypt_block_nu, c_decrypt_block_nu, l_roundtrip_nu, l_rtmono_nu, 34, cfg!(serpent_no_unroll));
+block_fns!(c_encrypt_block_nu, c_decrypt_block_nu, l_roundtrip_ed_nu, l_roundtrip_de_nu, l_rtmono_nu, 67, cfg!(serpent_no_unroll));
 
 // Public API on bytes: new_from_slice + encrypt_block / decrypt_block == Serpent of the submission for every key of
 // SYMBOLIC length 16..=32 bytes and every block.
@@ -285,12 +298,12 @@ macro_rules! api_fns {
             let buf: [u8; 32] = kani::any();
             let n: usize = kani::any();
             kani::assume(16 <= n && n <= 32);
-            kani::cover!(n == 16);
-            kani::cover!(n == 23);
-            kani::cover!(n == 32);
             let padded: [u8; 32] = kani::any();
             kani::assume(eq_bytes32(&padded, &r::pad_key(&buf, n)));
             unsafe { PADDED = padded; }
+            kani::cover!(n == 16);
+            kani::cover!(n == 23);
+            kani::cover!(n == 32);
             let b: [u8; 16] = kani::any();
             let c = <Serpent as KeyInit>::new_from_slice(&buf[..n]).unwrap();
             let mut blk = Array(b);
@@ -313,12 +326,12 @@ macro_rules! api_fns {
             let buf: [u8; 32] = kani::any();
             let n: usize = kani::any();
             kani::assume(16 <= n && n <= 32);
-            kani::cover!(n == 16);
-            kani::cover!(n == 23);
-            kani::cover!(n == 32);
             let padded: [u8; 32] = kani::any();
             kani::assume(eq_bytes32(&padded, &r::pad_key(&buf, n)));
             unsafe { PADDED = padded; }
+            kani::cover!(n == 16);
+            kani::cover!(n == 23);
+            kani::cover!(n == 32);
             let b: [u8; 16] = kani::any();
             let c = <Serpent as KeyInit>::new_from_slice(&buf[..n]).unwrap();
             let mut blk = Array(b);
